@@ -112,7 +112,8 @@ func ceMain(args []string) {
 		}
 		var signed []byte
 		ff := &cloudevents.FormatterFilter{Source: src, Schema: sch, Format: format, SignEventTypes: signTypes}
-		if sg != 0 {
+		lateSigner := sg != 0 && p.chance(1, 3)
+		if sg != 0 && !lateSigner {
 			ff.Signer = ceSigner(sg == 2, &signed)
 		}
 		pred := []string{"absent", "absent", "keep", "drop", "err"}[p.intn(5)]
@@ -159,6 +160,13 @@ func ceMain(args []string) {
 		}
 		created := time.Date(2021, 3, 4, 5, 6, 7, p.intn(2)*p.intn(1e9), time.UTC)
 		ttok, _ := json.Marshal(created)
+		if lateSigner {
+			// the signer arrives through Rotate after the filter has already processed events without one
+			ff.Process(ctx, &eventlogger.Event{Type: eventlogger.EventType(ty), CreatedAt: created, Formatted: map[string][]byte{}, Payload: "warm-up"})
+			ff.Rotate(ceSigner(sg == 2, &signed))
+			signed = nil
+			st.hit("signer-installed-by-rotate")
+		}
 		e := &eventlogger.Event{Type: eventlogger.EventType(ty), CreatedAt: created, Formatted: map[string][]byte{}, Payload: payload}
 		got, err := ff.Process(ctx, e)
 		fname := string(cloudevents.FormatJSON)
